@@ -1,3 +1,4 @@
+import PGT.Proofs.ToCongr
 import PGT.Model.Schema
 import PGT.Model.Spec
 /-
@@ -94,5 +95,57 @@ theorem C02_schema_key (f : Field) : (schemaField f).1 = f.info.nameSnake := by
 example : specName { nameOverrides := [("M.F", "x")] } { name := "FooBar", type := "string", jsonTag := some "a,omitempty" }
     { path := "R.M.F", typeName := "M.F" } = "x" := by decide
 example : specName {} { name := "FooBar", type := "string", jsonTag := some "-" } { path := "R.F", typeName := "M.F" } = "foo_bar" := by decide
+
+-- ------------------------------------------------------------------------------------------------------
+-- "writing a distinctive value into one field changes exactly that attribute" as theorems about CopyTo for every IR, every
+-- pair of source structs and every start state (proofs: `Proofs/ToCongr.lean`): a field's block looks at the struct only
+-- through `fieldView`; it assigns at most its own attribute; two runs on structs that agree in the view of every field but
+-- the one named `f0` produce attribute maps that agree everywhere but at `f0`'s attribute.
+
+/-- **a field block reads the struct only through its own field**: two structs that give the same view of `f`
+(`fieldView`) are indistinguishable to the block of `f` - same result state, diagnostics, hook log, same panic / stuck;
+no condition on any other field, none on the nested messages (they are reached through the value read). -/
+theorem C02_to_congr (f : Field) (obj obj' : GoVal) (atys : Option (List (String × TfTy))) (st : ToSt)
+    (h : fieldView f.info obj = fieldView f.info obj') :
+    copyToField f obj atys st = copyToField f obj' atys st := by
+  intros; apply copyToField_congr <;> assumption
+
+/-- the blocks of a field list write only the attributes named by the list -/
+theorem C02_to_frame : ∀ (fs : List Field) (obj : GoVal) (atys : Option (List (String × TfTy))) (st st' : ToSt),
+    copyToFields fs obj atys st = .ok st' →
+    ∀ key, (∀ f ∈ fs, key ≠ f.info.nameSnake) → st'.attrs.lookup key = st.attrs.lookup key := by
+  intros; apply copyToFields_frame <;> assumption
+
+/-- **changing one field of the source changes at most that field's attribute**: if `obj` and `obj'` give the same view
+(`fieldView`) of every field of `fs` whose attribute name differs from `f0`'s, then the attribute maps the two runs
+produce from the same start state agree on every key other than `f0`'s attribute name.  (Diagnostics / hooks may
+differ.)  All inputs; pairwise distinctness of the attribute names is NOT needed. -/
+theorem C02_to_changes_only (fs : List Field) (f0 : Field) (obj obj' : GoVal)
+    (atys : Option (List (String × TfTy))) (st s1 s2 : ToSt)
+    (hagree : ∀ f ∈ fs, f.info.nameSnake ≠ f0.info.nameSnake → fieldView f.info obj = fieldView f.info obj')
+    (h1 : copyToFields fs obj atys st = .ok s1) (h2 : copyToFields fs obj' atys st = .ok s2) :
+    ∀ key, key ≠ f0.info.nameSnake → s1.attrs.lookup key = s2.attrs.lookup key := by
+  intros; apply copyToFields_changes_only <;> assumption
+
+/-- the whole converter: on the same target, two sources that differ only in the view of `f0` give objects that agree
+on every attribute other than `f0`'s -/
+theorem C02_copyTo_changes_only (m : Msg) (f0 : Field) (obj obj' : GoVal) (tf : TfVal) (r1 r2 : ToResult)
+    (hagree : ∀ f ∈ m.fields, f.info.nameSnake ≠ f0.info.nameSnake → fieldView f.info obj = fieldView f.info obj')
+    (h1 : copyTo m obj tf = .ok r1) (h2 : copyTo m obj' tf = .ok r2) :
+    ∃ as1 as2 atys, r1.tf = .obj false false (some as1) atys ∧ r2.tf = .obj false false (some as2) atys ∧
+      ∀ key, key ≠ f0.info.nameSnake → as1.lookup key = as2.lookup key := by
+  intros; apply copyTo_changes_only <;> assumption
+
+/-- **writing a value into one Go field changes at most the attributes of the fields that mention it**: if every field
+of `fs` that mentions the Go name `n` (as its own name, oneof holder or nullable embedded parent) has the attribute name
+of `f0`, then `obj.<n> = x` changes at most the attribute of `f0`. -/
+theorem C02_to_setField_changes_only (fs : List Field) (f0 : Field) (obj : GoVal) (n : String) (x : GoVal)
+    (atys : Option (List (String × TfTy))) (st s1 s2 : ToSt)
+    (hfs : ∀ f ∈ fs, f.info.nameSnake ≠ f0.info.nameSnake →
+      f.info.name ≠ n ∧ f.info.oneOfName ≠ n ∧ f.info.parentIsOptionalEmbedFieldName ≠ n)
+    (h1 : copyToFields fs obj atys st = .ok s1) (h2 : copyToFields fs (obj.setField n x) atys st = .ok s2) :
+    ∀ key, key ≠ f0.info.nameSnake → s1.attrs.lookup key = s2.attrs.lookup key := by
+  intros; apply copyToFields_setField_changes_only <;> assumption
+
 
 end PGT.Props.C02
